@@ -44,6 +44,10 @@ func init() {
 		Replay: func(c *engine.Ctx, raw json.RawMessage) {
 			var cs c06Case
 			unmarshalCase(raw, &cs)
+			if cs.K == "ref2lib-unknown-first" {
+				c06Unknown(c) // (the sub-check is small: the replay runs it whole)
+				return
+			}
 			evalC06(c, cs)
 		},
 	})
@@ -83,7 +87,62 @@ func c06Headers(c *engine.Ctx) {
 	}
 }
 
+// c06Unknown: a peer that implements more than the library places a payload of a type the library does not know, with
+// the critical flag clear, first in the inner chain (or sends nothing else): the message is accepted and read as the
+// same message without that payload.
+func c06Unknown(c *engine.Ctx) {
+	al := univ.Alphabet()
+	for ai := -1; ai < len(al); ai += 3 {
+		for si := 0; si < 9; si++ {
+			if !c.Mine() {
+				continue
+			}
+			for ti, t := range []uint8{49, 53, 60, 200, 255} {
+				m := ref.Msg{H: univ.BaseHdr}
+				if ai >= 0 {
+					m.P = []ref.Payload{al[ai].P}
+				}
+				senderI := (si+ti)%2 == 0
+				cs := c06Case{K: "ref2lib-unknown-first", Name: fmt.Sprintf("unknown type %d first, then %d payloads", t, len(m.P)), M: m, Suite: si, Pattern: 2, SenderI: senderI, PadPat: int(t)}
+				c.Evals++
+				c.Transitions++
+				ks := univ.MakeKeySet(si, 2, 2)
+				ske, ska := ks.DirKeys(senderI)
+				first, inner, err := ref.EncodeChain(m.P, ref.Lib{})
+				if err != nil {
+					continue
+				}
+				body := univ.Pat(ti*3, ti)
+				pt := append([]byte{first, 0, 0, byte(4 + len(body))}, body...)
+				pt = append(pt, inner...)
+				pad := (16 - (len(pt)+1)%16) % 16
+				pt = append(append(pt, univ.Pat(pad, 9)...), byte(pad))
+				b := ref.ProtectRaw(ks.Suite, ske, ska, m.H, t, pt, univ.Pat(16, 70+ti), -1)
+				sa, err := univ.NewSA(ks)
+				if err != nil {
+					continue
+				}
+				var got *message.IKEMessage
+				if pi := engine.Catch(func() { got, err = ike.DecodeDecrypt(b, nil, sa, roleOf(!senderI)) }); pi != nil {
+					c.Violate(pi.Sig(), "DecodeDecrypt panics: "+pi.Value, cs)
+					continue
+				}
+				if err != nil {
+					c.Violate("ref2lib/rejected/unknown-noncritical-first", fmt.Sprintf("%s, %v: a genuine message whose inner chain starts with a non-critical payload of unknown type %d is refused: %s", cs.Name, ks.Suite, t, errStr(err)), cs)
+					continue
+				}
+				if g := univ.Project(got); g.Canon() != m.Canon() {
+					c.Violate("ref2lib/fields/unknown-noncritical-first", fmt.Sprintf("%s: got %s", cs.Name, trs(g.Canon())), cs)
+					continue
+				}
+				c.Count("unknown_first_accepted", 1)
+			}
+		}
+	}
+}
+
 func runC06(c *engine.Ctx) {
+	c06Unknown(c)
 	c06Headers(c)
 	c06Boundary(c)
 	c06Env(c)
